@@ -30,7 +30,6 @@ Definition decodable (b : bytes) (c : nat) (S : nat -> Prop) : Prop :=
 
 (* agreement of two buffers on the readable region *)
 Definition ragree (lo c h : nat) (b b' : bytes) : Prop :=
-  length b' = length b /\
   forall j, lo <= j -> j < c -> (j < h \/ h + 2 <= j) -> nth_error b' j = nth_error b j.
 
 Lemma okr_mono lo c h a e c' : okr lo c h a e -> c <= c' -> okr lo c' h a e.
@@ -81,12 +80,12 @@ Proof. intros H Hs. destruct (H s Hs) as [x [_ [_ [[A [B _]] _]]]]. lia. Qed.
 
 Lemma ragree_okr lo c h b b' a e j : ragree lo c h b b' -> okr lo c h a e -> a <= j -> j < e ->
   nth_error b' j = nth_error b j.
-Proof. intros [_ H] [A [B C]] H1 H2. apply H; lia. Qed.
+Proof. intros H [A [B C]] H1 H2. apply H; lia. Qed.
 
-Lemma slice_ext (b b' : bytes) : forall n a, length b' = length b -> a + n <= length b ->
+Lemma slice_ext (b b' : bytes) : forall n a, a + n <= length b ->
   (forall j, a <= j -> j < a + n -> nth_error b' j = nth_error b j) -> slice b' a (a + n) = slice b a (a + n).
 Proof.
-  induction n as [|n IH]; intros a Hl Hle H.
+  induction n as [|n IH]; intros a Hle H.
   - rewrite Nat.add_0_r, !slice_nil. reflexivity.
   - destruct (nth_error b a) as [x|] eqn:E; [|apply nth_error_None in E; lia].
     rewrite (slice_cons b a x (a + S n) E) by lia.
@@ -98,7 +97,7 @@ Qed.
 Lemma ragree_slice lo c h b b' a e : ragree lo c h b b' -> okr lo c h a e -> a <= e -> e <= length b ->
   slice b' a e = slice b a e.
 Proof.
-  intros R O Hae He. replace e with (a + (e - a)) by lia. apply slice_ext; [apply R|lia|].
+  intros R O Hae He. replace e with (a + (e - a)) by lia. apply slice_ext; [lia|].
   intros j J1 J2. eapply ragree_okr; eauto. lia.
 Qed.
 
@@ -162,21 +161,20 @@ Proof.
   eapply name_at_stable; eauto. apply agree_refl.
 Qed.
 
-Lemma agree_ragree lo c h b b' : agree c b b' -> length b' = length b -> ragree lo c h b b'.
-Proof. intros A L. split; auto. intros j _ Hj _. eapply agree_nth; eauto. Qed.
+Lemma agree_ragree lo c h b b' : agree c b b' -> ragree lo c h b b'.
+Proof. intros A j _ Hj _. eapply agree_nth; eauto. Qed.
 
 Lemma ragree_refl lo c h b : ragree lo c h b b.
-Proof. split; auto. Qed.
+Proof. intros j _ _ _. reflexivity. Qed.
 
 Lemma ragree_le lo c h b b' c' : ragree lo c h b b' -> c' <= c -> ragree lo c' h b b'.
-Proof. intros [L H] Hc. split; auto. intros j J1 J2 J3. apply H; auto; lia. Qed.
+Proof. intros H Hc j J1 J2 J3. apply H; auto; lia. Qed.
 
 (* a buffer write entirely inside the header, the hole, or at/above c *)
 Lemma buf_write_ragree lo c h b pos d b' : buf_write b pos d = Some b' ->
   (pos + length d <= lo \/ c <= pos \/ (h <= pos /\ pos + length d <= h + 2)) -> ragree lo c h b b'.
 Proof.
-  intros W Hd. split; [eapply buf_write_length; eauto|].
-  intros j J1 J2 J3. apply buf_write_inv in W as [W1 ->].
+  intros W Hd j J1 J2 J3. apply buf_write_inv in W as [W1 ->].
   destruct (Nat.lt_ge_cases j pos) as [Hlt|Hge].
   - rewrite nth_error_app1 by (rewrite firstn_length; lia). apply nth_error_firstn_lt; auto.
   - assert (pos + length d <= j) by lia.
